@@ -28,6 +28,27 @@ func gen(t *rapid.T) Case {
 	c.Ops = life.GenOps(t, cfg, c.Pool, rapid.IntRange(0, rig.Up(25)).Draw(t, "nops"),
 		life.GenOpts{Facades: false, Hostile: true, NewMethods: true, Trace: c.Trace})
 	c.Variant = rapid.IntRange(0, 11).Draw(t, "variant")
+	if rapid.IntRange(0, 79).Draw(t, "mass") == 0 {
+		// a table of a size beyond the usual: several hundred routes with one method below one prefix, registered in
+		// one go and taken away again by a Clean - per-method bookkeeping must not care how many there are
+		n := rapid.SampledFrom([]int{64, 127, 128, 255, 256, 257, 300, 520}).Draw(t, "massN")
+		ms := rapid.SampledFrom([][]string{{"DELETE"}, {"GET"}, {"PATCH", "PUT"}, {"POST"}}).Draw(t, "massMethods")
+		var ps []string
+		for i := 0; i < n; i++ {
+			ps = append(ps, fmt.Sprintf("/mm/%d", i))
+		}
+		mass := []life.Op{{Kind: "handleMany", Patterns: ps, Methods: ms}}
+		if rapid.Bool().Draw(t, "massOther") {
+			mass = append(mass, life.Op{Kind: "handle", Pattern: "/other", Methods: []string{rapid.SampledFrom([]string{"POST", "GET", "CONNECT"}).Draw(t, "massOtherM")}})
+		}
+		if rapid.Bool().Draw(t, "massPrefixClean") {
+			mass = append(mass, life.Op{Kind: "prefixClean", Prefix: rapid.SampledFrom([]string{"/mm/", "/mm", "/m", "/mm/1"}).Draw(t, "massPrefix")})
+		} else {
+			mass = append(mass, life.Op{Kind: "clean"})
+		}
+		at := rapid.IntRange(0, len(c.Ops)).Draw(t, "massAt")
+		c.Ops = append(append(append([]life.Op{}, c.Ops[:at]...), mass...), c.Ops[at:]...)
+	}
 	return c
 }
 
